@@ -17,4 +17,4 @@ assumptions = ["outcomes of user code are scripted per attempt; futures inside a
 def gen(rng, tier):
     n = 6000 if tier == "thorough" else 600
     return [gen_one(rng) for _ in range(n)]
-also = ["C02b"]   # the canonical sequence inside every interleaving: whole scheduler runs
+also = ["C02b", "C02c"]   # the canonical sequence inside every interleaving: whole scheduler runs
